@@ -15,6 +15,9 @@ RULE = ("exhaustive: every string up to the stated length over {0,1,7,+,-,.,e,E,
         "non-trivial = distinct literal that is not a plain unsigned integer without leading zero (exhaustive part: distinct values read)")
 
 def gen_long(rng, max_digits, max_exp):
+    if rng.random() < 0.08:
+        t = boundary.terminating_literal(rng)      # exact decimal spellings of k / (2^a 5^b)
+        return t + ("%" if rng.random() < 0.1 else "")
     if rng.random() < 0.1:
         # machine-word / limb boundaries (2^64, 2^128, 10^19 ...) as plain, pointed, exponent and padded literals
         t = boundary.literal(rng)
